@@ -25,16 +25,16 @@ def lemma_index_arithmetic(tier):
     wf = ast.unparse(front.strip(front.find(rel, "Transmitter.walk_forward")))
     env_init = ast.unparse(front.strip(front.find("tradingenv/env.py", "TradingEnv.__init__")))
     out = [
-        lemma.check("C15::lemma::reset_uses_the_modelled_expressions",
+        lemma.binds("C15::lemma::reset_uses_the_modelled_expressions",
                     all(x in rs for x in ("steps[start_date <= steps]", "steps[steps <= end_date]", "steps[:-(episode_length - 1)]",
                                           "np.random.choice(range(len(start_dates)), p=p)", "end_date_idx = start_date_idx + episode_length - 1",
                                           "steps[start_date_idx:end_date_idx + 1]")),
                     "Transmitter._reset: inclusive fold masks, start positions steps[:-(L-1)], uniform choice over them, slice [i : i+L-1+1]"),
-        lemma.check("C15::lemma::walk_forward_uses_the_modelled_expressions",
+        lemma.binds("C15::lemma::walk_forward_uses_the_modelled_expressions",
                     all(x in wf for x in ("count[:-train_size - test_size + 1:test_size]", "train_start * int(sliding_window)", "train_start + train_size - 1",
                                           "train_start + train_size", "train_start + train_size + test_size - 1")),
                     "Transmitter.walk_forward: starts 0, test, 2*test, ... < n - train - test + 1"),
-        lemma.check("C15::lemma::configured_decisions_plus_one_state", "episode_length += 1" in env_init,
+        lemma.binds("C15::lemma::configured_decisions_plus_one_state", "episode_length += 1" in env_init,
                     "TradingEnv.__init__ turns a configured number of decisions n into n+1 states"),
     ]
     N, Lh, i, j = z3.Ints("N L i j")
